@@ -19,14 +19,22 @@ TOL = 400  # 2 x SOLV-D (each run within 2e-2 capture units of the optimum)
 SYSTEMS = {
     "u23": dict(A=[[3., 1, 0], [0, 1, 2]], lb=[0., 0, 0], ub=[1., 1, 1]),
     "s22": dict(A=[[2., 1], [1, 3]], lb=[0., 0], ub=[1., 1]),
+    # positive lower bounds (a dark target is then NOT fitted by zero intensities)
+    "u23lb": dict(A=[[3., 1, 0], [0, 1, 2]], lb=[0.05, 0.05, 0.05], ub=[1., 1, 1]),
 }
 POOL = np.array([[1.0, 1.0], [2.0, 1.5], [5.0, 5.0], [0.5, 2.5], [3.5, 0.25], [0.25, 0.125], [1.5, 3.5], [2.5, 2.0]])
+# "dark" option: rows 0 and 2 carry no light at all (target = baseline), also as the first row of every call
+DARK = {0, 2}
+# "wide" option (variance minimisation, high-accuracy solver): in-gamut targets spanning three decades in one call
+WIDE_X = np.array([[0.1, 0.2, 0.1], [1.0, 0.5, 2.0], [40.0, 10.0, 25.0], [300.0, 200.0, 100.0], [0.3, 0.1, 0.2], [900.0, 50.0, 400.0], [4.0, 4.0, 1.0], [0.2, 0.3, 0.3]])
 # the last row (only ever used as the appended sample) carries by far the largest weights of the pool
 WPOOL = np.array([[1.0, 1.0], [2.0, 1.0], [1.0, 2.0], [1.0, 1.0], [2.0, 2.0], [1.0, 1.0], [1.0, 2.0], [8.0, 4.0]])
 OPTIONS = {"plain": dict(baseline=None, W=False), "bl": dict(baseline=[0.5, 0.25], W=False),
            "w": dict(baseline=None, W=True), "blw": dict(baseline=[0.5, 0.25], W=True),
            # variance minimisation only: positive lower bounds and a requested total intensity per row
-           "l1lb": dict(baseline=None, W=False, lb=0.05, L1=True)}
+           "l1lb": dict(baseline=None, W=False, lb=0.05, L1=True),
+           "dark": dict(baseline=[0.5, 0.25], W=False, dark=True),
+           "wide": dict(baseline=None, W=False, wide=True)}
 MODELS = ["gaussian", "poisson", "excitation", "minimize"]
 
 
@@ -53,6 +61,11 @@ def _call(model, sysd, opt, rows, bsreq, layout="C"):
     if opt.get("lb"):
         lb = lb + opt["lb"]
     B = POOL[rows]
+    if opt.get("dark"):
+        B = np.array([np.zeros(2) if r in DARK else POOL[r] for r in rows])
+    if opt.get("wide"):
+        ub = np.full_like(ub, 1000.0)
+        B = WIDE_X[rows] @ A.T
     bl = None if opt["baseline"] is None else np.array(opt["baseline"])
     if bl is not None:
         B = B + bl
@@ -70,6 +83,8 @@ def _call(model, sysd, opt, rows, bsreq, layout="C"):
             from dreye.api import _verif
             del _verif.EVENTS[:]      # the events of this auxiliary fit are not part of the recorded call
             kw.update(L1=X0.sum(1)[rows], l1_eps=1e-2)
+        if opt.get("wide"):
+            kw["solver"] = "CLARABEL"
         X, Bp, _ = lsq_linear_minimize(A, B, l2_eps=1e-4, **kw)
     return X, Bp
 
@@ -126,7 +141,8 @@ def run_job(job):
             continue
         for k, r in enumerate(rows):
             clause = "C05.batch-invariance" if kind in ("grid", "fortran", "strided") else "C05.row-independence"
-            events.append(dict(ev="Row", rid=("B", sysname, optname, model, r), fp=[int(round(v * SCALE)) for v in Bp[k]], clause=clause, meta=meta))
+            fscale = SCALE * (10 if optname == "wide" else 1)     # high-accuracy class for the wide option: 4e-3
+            events.append(dict(ev="Row", rid=("B", sysname, optname, model, r), fp=[int(round(v * fscale)) for v in Bp[k]], clause=clause, meta=meta))
             if sysname == "s22":  # unique optimum: intensities must agree too
                 events.append(dict(ev="Row", rid=("X", sysname, optname, model, r), fp=[int(round(v * SCALE)) for v in X[k]], clause=clause + "-x", meta=meta))
     return events
@@ -163,13 +179,17 @@ def run(ctx):
     nmax = 5 if thorough else 4
     opts = list(OPTIONS) if thorough else ["plain", "blw"]
     jobs = []
-    for s in SYSTEMS:
+    for s in ("u23", "s22"):
         for o in opts:
             for m in MODELS:
                 k = 6 if m == "excitation" else 2
                 jobs += [(s, o, m, (nmax if m != "excitation" or thorough else 3), part, k) for part in range(k)]
-    for s in SYSTEMS:
+    for s in ("u23", "s22"):
         jobs += [(s, "l1lb", "minimize", nmax, part, 2) for part in range(2)]
+    for m in MODELS:
+        k = 6 if m == "excitation" else 2
+        jobs += [("u23lb", "dark", m, (nmax if m != "excitation" or thorough else 3), part, k) for part in range(k)]
+    jobs += [("u23", "wide", "minimize", nmax, part, 2) for part in range(2)]
     parts = pmap(run_job, jobs, chunksize=1)
     events = [e for p in parts for e in p]
     rids = {}
